@@ -514,9 +514,24 @@ impl LinearModel {
         out.push_str(&format!(" obj: {}\n", objective));
 
         out.push_str("Subject To\n");
+        // generated names must not clash with a name the user wrote (e.g. a row
+        // called "c1") nor with each other
+        let mut taken: std::collections::HashSet<String> = self
+            .constraints
+            .iter()
+            .map(|c| c.name())
+            .filter(|name| !name.is_empty())
+            .collect();
         for (i, c) in self.constraints.iter().enumerate() {
             let name = if c.name().is_empty() {
-                format!("c{}", i + 1)
+                let mut candidate = format!("c{}", i + 1);
+                let mut suffix = 2usize;
+                while taken.contains(&candidate) {
+                    candidate = format!("c{}_{}", i + 1, suffix);
+                    suffix += 1;
+                }
+                taken.insert(candidate.clone());
+                candidate
             } else {
                 c.name()
             };
